@@ -142,7 +142,12 @@ inline ApiCase gen_dft(const MODULE* mod, MODULE_TYPE t, DftShape s, const char*
   std::vector<int64_t> pol(N * std::max<uint64_t>(s.as, 1));
   const bool bigv = s.big && t == FFT64;
   for (size_t e = 0; e < N * s.as; ++e) pol[e] = bigv ? dft_in_value(t, e + 17) * (INT64_C(1) << 29) : dft_in_value(t, e + 17);
+  // every other shape (FFT64): limb 1 is the zero polynomial, held in DFT space as zeros of MIXED SIGN (what a product with a zero
+  // operand looks like: 0 * x = -0.0 whenever x < 0) - a "this limb is zero" shortcut must still deliver integer zeros
+  const bool signed_zero_limb = t == FFT64 && !bigv && s.as >= 2 && ((s.rs + s.as) & 1);
+  if (signed_zero_limb) for (uint64_t j = 0; j < N; ++j) pol[N + j] = 0;
   if (s.as) vec_znx_dft(mod, (VEC_ZNX_DFT*)c.bufs[ia].init.data(), s.as, pol.data(), s.as, N);
+  if (signed_zero_limb) { double* d = (double*)c.bufs[ia].init.data(); for (uint64_t j = 0; j < N; ++j) d[N + j] = (j % 3 == 1 || j == 0) ? -0.0 : 0.0; }
   if (bigv) { double* d = (double*)c.bufs[ia].init.data(); for (size_t e = 0; e < N * s.as; ++e) d[e] *= 3.0; }  // coefficients up to 1.5 * 2^50: many of them in [2^50, 2^51), above the narrow conversion kernel's range
   if (s.variant == 2) { Buf& A = c.bufs[ia]; memset(A.mask.data(), 2, A.bytes); /* documented: a_dft is overwritten */
     size_t lb = dft_bytes(t, N, 1); for (uint64_t i = smin; i < s.as; ++i) memset(&A.mask[i * lb], 2, lb); }
